@@ -803,6 +803,18 @@ func scnRoles(g *Gen, budget int, arg string) {
 		if g.chance(0.7) {
 			g.tx("UpdateOwner", newKV().set("from", hs(sp.owner)).set("new", hs(g.anyAcct())))
 		}
+		// a nominee whose acceptance ran only on a DISCARDED branch (a simulation, or a transaction whose next message
+		// failed) is still only a nominee: owner-only actions are refused to them and still open to the owner
+		{
+			owner, nominee := g.role("owner"), g.acct[(g.acctIndex(g.role("owner"))+1)%len(g.acct)]
+			g.tx("UpdateOwner", newKV().set("from", hs(owner)).set("new", hs(nominee)))
+			g.emit(Op{Kind: "sim", Sub: "AcceptOwner", KV: newKV().set("from", hs(nominee)).set("faults", "-")})
+			g.dump()
+			g.tx("UpdateMaxMessageBodySize", newKV().set("from", hs(nominee)).set("size", "4000"))
+			g.tx("UpdatePauser", newKV().set("from", hs(nominee)).set("new", hs(nominee)))
+			g.tx("UpdateMaxMessageBodySize", newKV().set("from", hs(owner)).set("size", "8000"))
+			g.emit(Op{Kind: "query", Sub: "Roles", KV: newKV()})
+		}
 		if arg == "lifecycle" {
 			// address-syntax matrix: every role update by the genuine owner with every kind of malformed or barely
 			// valid address (a valid one changes the role, so the owner is re-read each time)
